@@ -219,11 +219,15 @@ def verify_unit(spec, registry, fuel=2, timeout_ms=10000, mutate=None, prop=None
         fnode = mutate(fnode)
     rep = UnitReport(spec, unit)
     ex = Executor(spec.name(), spec, registry, fuel=fuel)
+    ex.unit_node = fnode
     t0 = time.time()
     try:
         st, a = initial_state(ex, spec, fnode)
         c = Ctx(ex, st, st, a)
         st.assume(*[f for _, f in spec.requires(c)])
+        for nm, inv in registry.heap_invariants:
+            st.assume(inv(st))
+            registry.assumptions.add("class invariant assumed of the initial heap: " + nm)
         spec.setup(ex, st, a)
         st.todo = spec.init_trace(c)
         if not ex.feasible(st):
